@@ -73,6 +73,10 @@ def gen_universe(rnd, big=False):
         # 0 is an id like any other (also twice: two objects that must never share a WBS)
         for k in rnd.sample(range(n), rnd.choice([1, 2, 2])):
             tasks[k]['id'] = 0
+    if rnd.random() < 0.1:
+        # ids are values of any kind the user likes: text ids next to numbers (also twice)
+        for k in rnd.sample(range(n), rnd.choice([1, 2, 3])):
+            tasks[k]['id'] = rnd.choice(['spec', 'a', 'spec', '7'])
     nw = rnd.choice([1, 1, 2, 2, 3])
     wbs = [({'title': f'W{k}'} if rnd.random() < 0.3 else {}) for k in range(nw)]
     return {'tasks': tasks, 'wbs': wbs}
@@ -225,6 +229,8 @@ def gen_op(rnd, s, u):
         form = rnd.choice(['list', 'list', 'list', 'tuple', 'gen', 'single', 'none', 'gen_raises'])
         if rnd.random() < 0.1:
             L = L + [None]
+        if rnd.random() < 0.04:
+            L = L + ['#junk']
         if rnd.random() < 0.5:
             cur = _hl(s, holder)
             L = rnd.sample(cur, rnd.randint(0, len(cur))) + L
@@ -247,6 +253,8 @@ def gen_op(rnd, s, u):
         h = list_holder() if rnd.random() < 0.6 else holder
         n = len(_hl(s, h))
         i = rnd.choice([0, n, n - 1, -1, n + 1, 1, rnd.randint(-1, n + 1)])
+        if rnd.random() < 0.08:
+            i = rnd.choice([None, 1.0, '1', n / 2, True])       # whatever the caller computed as a position
         cand = [q for q in T if q not in _hl(s, h)]
         xx = rnd.choice(cand) if cand and rnd.random() < 0.75 else x
         return ['insert', list(h), i, xx]
@@ -273,6 +281,8 @@ def gen_op(rnd, s, u):
         ids = [s['T'][q]['id'] for q in (rnd.sample(cur, rnd.randint(0, len(cur))) if cur else [])]
         if rnd.random() < 0.2:
             ids.append(rnd.choice([99, s['T'][x]['id']]))
+        if ids and rnd.random() < 0.1:
+            ids.append(ids[0])            # the same id named twice
         return ['reorder', list(h), ids]
     if c < 58:
         h = list_holder()
@@ -301,6 +311,10 @@ def gen_op(rnd, s, u):
         form = rnd.choice(['list', 'list', 'tuple', 'gen', 'single', 'none', 'gen_raises'])
         if rnd.random() < 0.08:
             L = L + [None]
+        if rnd.random() < 0.06:
+            L = L + ['#junk']       # a task id where a task belongs: the call fails, and must fail without having changed anything
+            if rnd.random() < 0.5:
+                t = rnd.choice([k for k in T if not s['T'][k]['succs'] and not s['T'][k]['preds']] or [t])
         if form == 'single':
             L = L[:1]
         if form == 'none':
@@ -542,7 +556,8 @@ def run_history(prop, spec, ops, acc, gen=None, tail=True, judge_from=0, layer='
         h_ = rnd.choice([['t', a_], ['w', w_]])
         prefix = [['append', ['w', w_], a_]] if h_[0] == 't' else []
         prefix += [['append', h_, b_], ['append', h_, c_], ['append', h_, d_], ['stale.get', 's0', h_],
-                   ['sort', h_, rnd.choice(['name', 'id', ['name', 'id'], ['id']]), rnd.random() < 0.5]]
+                   rnd.choice([['sort', h_, rnd.choice(['name', 'id', ['name', 'id'], ['id']]), rnd.random() < 0.5],
+                               ['reorder', h_, [s_after['T'][q]['id'] for q in rnd.sample([b_, c_, d_], rnd.randint(1, 3))]]])]
         prefix.append(rnd.choice([['append', h_, e_], ['lremove', h_, b_], ['insert', h_, 0, e_], ['wbs.remove', w_, c_]]))
         prefix.append(['stale.use', 's0', rnd.choice([['move', h_, [d_], b_, None, True], ['sort', h_, 'name', False], ['reorder', h_, []],
                                                       ['lremove', h_, d_], ['append', h_, e_], ['insert', h_, 1, e_]])])
@@ -781,7 +796,17 @@ def run_history(prop, spec, ops, acc, gen=None, tail=True, judge_from=0, layer='
                              f'{name}({ac}) raised {outcome[6:]} but state changed: {diff(s0, s1)}'))
         # ---- C16
         if outcome == 'ok' and op[0] not in ('stale.get', 'linkview.get'):
-            if exp is None:
+            if exp is None and ret_exp[0] == 'permutation':
+                # order left open by the statement: the list must still hold the same tasks, and nothing else may change
+                acc.count('permutation_only:' + name)
+                h_ = tuple(ret_exp[1])
+                norm = copy.deepcopy(s1)
+                l1, l0 = graph._hl(norm, h_), graph._hl(s0, h_)
+                if sorted(l1) == sorted(l0):
+                    l1[:] = l0
+                if setlevel(norm, owner=True) != setlevel(s0, owner=True):
+                    viol.append(('C16', f'C16/{name}/not-a-permutation', f'{name} returned; beyond the order of {h_} something else changed: {diff(s0, s1)}'))
+            elif exp is None:
                 acc.count('unspecified:' + name)
             else:
                 if prop == 'C16':
